@@ -317,6 +317,12 @@ def hand_over_switches_both_sides(ctx):
     ids = [i for c in on for i in cfg.node_of(c)]
     ctx.check(bool(ids) and cfg.all_paths_pass([cfg.entry], [cfg.exit], ids, exc=False), f'{ac.qualname}:new controller is switched on', ac.node,
               'set_control_active(True) on every path', 'taking over control does not mark the new controller as active: the output names a module that says it is not controlling', ac)
+    deact = {i for c in calls_in(ac.node) if isinstance(c.func, ast.Name) and 'deactivate' in c.func.id for i in cfg.node_of(c)}
+    named = {i for tg, v, s in attr_stores(ac.node) if tg.attr == 'controlled_by' for i in cfg.node_of(s)}
+    ctx.check(not ((deact | named) & cfg.reach(ids)), f'{ac.qualname}:the others are switched off before the new controller is marked active', ac.node,
+              'set_control_active(True) comes last',
+              'the new controller is marked active before the previous one is switched off and before the output names it: in between (and for good when a deactivation '
+              'fails) two controllers are marked as controlling one output while controlled_by names the old one', ac)
     for t in cfg.nodes:
         if t.kind == 'test' and src(t.ast).replace('not ', '') in ('out', 'self.output_module'):
             neg = src(t.ast).startswith('not ')
